@@ -59,10 +59,39 @@ func storeMapOf(t *Term) (string, bool) {
 }
 
 func mutexOf(recv *Term) (string, bool) {
-	if recv != nil && recv.Op == "addr" && len(recv.Args) == 1 && recv.Args[0].Op == "param" && strings.HasPrefix(recv.Args[0].Name, "0:") {
-		return recv.Name, true
+	mu, _, ok := mutexModeOf(recv)
+	return mu, ok
+}
+
+// mutexModeOf also sees through (*sync.RWMutex).RLocker(): Lock/Unlock on that
+// Locker are RLock/RUnlock of the mutex (reader == true).
+func mutexModeOf(recv *Term) (name string, reader, ok bool) {
+	if recv != nil && recv.IsCall(".RLocker") && len(recv.Args) == 1 {
+		recv, reader = recv.Args[0], true
 	}
-	return "", false
+	if recv != nil && recv.Op == "addr" && len(recv.Args) == 1 && recv.Args[0].Op == "param" && strings.HasPrefix(recv.Args[0].Name, "0:") {
+		return recv.Name, reader, true
+	}
+	return "", false, false
+}
+
+// lockOp normalises a lock call on a store mutex: the mutex and the operation
+// as if it had been called on the RWMutex itself.
+func lockOp(e *Event) (mu, op string, ok bool) {
+	mu, reader, ok := mutexModeOf(e.Recv)
+	if !ok {
+		return "", "", false
+	}
+	op = e.Name
+	if reader {
+		switch op {
+		case ".Lock":
+			op = ".RLock"
+		case ".Unlock":
+			op = ".RUnlock"
+		}
+	}
+	return mu, op, true
 }
 
 func c19Store(c *Ctx) {
@@ -111,11 +140,11 @@ func c19Store(c *Ctx) {
 			for _, e := range p.Events {
 				switch e.Kind {
 				case "call":
-					mu, ok := mutexOf(e.Recv)
+					mu, op, ok := lockOp(e)
 					if !ok {
 						continue
 					}
-					switch e.Name {
+					switch op {
 					case ".Lock", ".RLock":
 						if _, h := held[mu]; h {
 							okReacq = false
@@ -127,19 +156,19 @@ func c19Store(c *Ctx) {
 							}
 							edges[h][mu] = fnShort(fn)
 						}
-						if e.Name == ".Lock" {
+						if op == ".Lock" {
 							held[mu] = "W"
 						} else {
 							held[mu] = "R"
 						}
 					case ".Unlock", ".RUnlock":
 						want := "W"
-						if e.Name == ".RUnlock" {
+						if op == ".RUnlock" {
 							want = "R"
 						}
 						if held[mu] != want {
 							okPair = false
-							whyPair = fmt.Sprintf("%s%s at %s does not match the lock state %q", mu, e.Name, c.P.Pos(e.Instr.Pos()), held[mu])
+							whyPair = fmt.Sprintf("%s%s at %s does not match the lock state %q", mu, op, c.P.Pos(e.Instr.Pos()), held[mu])
 						}
 						delete(held, mu)
 						// releasing the guard ends the read-modify-write window of its maps
@@ -182,7 +211,7 @@ func c19Store(c *Ctx) {
 			hold := map[string]int{}
 			for _, e := range p.Events {
 				if e.Kind == "call" {
-					if mu, ok := mutexOf(e.Recv); ok && (e.Name == ".Unlock" || e.Name == ".RUnlock") {
+					if mu, op, ok := lockOp(e); ok && (op == ".Unlock" || op == ".RUnlock") {
 						hold[mu]++
 					}
 					continue
@@ -405,7 +434,9 @@ func c19R4(c *Ctx) {
 		if strings.HasPrefix(short, "Default") && strings.Contains(short, "Client") && (strings.HasPrefix(fn.Name(), "Get") || strings.HasPrefix(fn.Name(), "Is")) {
 			isShared = true
 		}
-		if rt == pkgRoot+".RFC6749Error" && strings.HasPrefix(fn.Name(), "With") {
+		// (WithTrace is the one builder that records into its receiver by design — through Wrap in the
+		// unchanged tree — and the library never calls it; it is not an instance of this rule.)
+		if rt == pkgRoot+".RFC6749Error" && strings.HasPrefix(fn.Name(), "With") && fn.Name() != "WithTrace" {
 			isShared = true
 		}
 		var bad []string
